@@ -569,7 +569,7 @@ META = dict(
     bounds=dict(meshes='1-3 cell meshes of Line1/Tri1/Quad1/Tet1 with ALL vertex coordinates symbolic (either orientation); Hex1/Wedge1 numeric or 1-2 free vertices; '
                        'globally defined elements numeric geometry', elements='see configuration names',
                 integrands='values, grad, div, curl, hess, products with w.x, w.h, w.n, interpolated field and its gradient, scalar'),
-    outside=['complex dtype', 'meshes larger than the zoo', 'thread schedules (C16; here the threaded kernel runs its workers sequentially in reverse start order)', 'float rounding',
+    outside=['complex dtype', 'curved second-order meshes (tried: no verdict within minutes)', 'meshes larger than the zoo', 'thread schedules (C16; here the threaded kernel runs its workers sequentially in reverse start order)', 'float rounding',
              'duplicate summation inside scipy CSR construction (the COO triplets are contracted directly in symbolic mode; the float replay uses the real CSR path)'],
     assumptions=['mesh validity: cell determinants non-zero, neighbours on opposite sides of shared facets, quadrilaterals convex'],
     design_ref='DESIGN.md 4/C01',
